@@ -220,6 +220,13 @@ def check(repo: Repo) -> Result:
     share(res, r9, "C04", lambda t: c04.power_gate(repo, t, _UA(repo)), ["C04-R6"], min_keys=3)
     r8 = res.rule("C07-R8", "get_units reports one unit per operand, in order (products over the operands' units - einsum, convolve, tensordot - need every factor, also when two operands share a unit)", floor=1)
     share(res, r8, "C01", lambda t: c01.merging_handlers(repo, t), ["C01-R4v"], want=lambda k: k == "get_units")
+    r11 = res.rule("C07-R11", "a masked np.copyto keeps the destination's unit and receives the source converted into it: the elements that are not copied keep denoting what they denoted (shared with C01-R4)", floor=1)
+
+    def _mc(t):
+        t.rule("C01-R4", "x")
+        c01.masked_copy(repo, t, "C01-R4")
+
+    share(res, r11, "C01", _mc, ["C01-R4"], want=lambda k: k == "copyto:masked-copy-converts")
     return res
 
 
@@ -540,6 +547,7 @@ def wrapup_rule(repo, res):
 UO = "unyt/unit_object.py"
 
 MUTANTS = [
+    Mutant("masked-copyto-relabels", AF, "copyto", "        np.copyto._implementation(dst, src.to(dst.units), *args, **kwargs)\n        return\n", "        pass\n", ("C07-R11",)),
     Mutant("product-helper-drops-coefficient", AF, "product_helper", 'prod_units = getattr(a, "units", NULL_UNIT) * getattr(b, "units", NULL_UNIT)', '_, prod_units = _multiply_units(getattr(a, "units", NULL_UNIT), getattr(b, "units", NULL_UNIT))', ("C07-R1",)),
     Mutant("var-linear", AF, "var", "a.units**2", "a.units", ("C07-R1",)),
     Mutant("inv-not-inverted", AF, "linalg_inv", "**kwargs) / a.units", "**kwargs) * a.units", ("C07-R1",)),
